@@ -94,7 +94,8 @@ fn residue_check<T: Zeroize>(name: &str, make: &dyn Fn() -> Option<T>, secrets: 
 pub struct ResidueCase {
     pub hash: HashId,
     /// 0 Seed, 1 SeedAndLmsTreeIdentifier, 2 ReferenceImplPrivateKey, 3 LmsPrivateKey,
-    /// 4 LmotsPrivateKey (supplied chain values), 5 LmotsPrivateKey (derived by the library)
+    /// 4 LmotsPrivateKey (supplied chain values), 5 LmotsPrivateKey (derived by the library),
+    /// 6 Seed built through the public `Seed::from([u8; 32])` (all 32 caller-supplied bytes)
     pub ty: u8,
     pub tag: u64,
     pub w: u8,
@@ -123,7 +124,13 @@ pub fn check_residue(c: &ResidueCase) -> Verdict {
     id.copy_from_slice(&idv);
     let w = WS[c.w as usize % 4];
     let r: Result<bool, (String, String)> = with_hash!(c.hash, H => {
-        match c.ty % 6 {
+        match c.ty % 7 {
+            6 => {
+                let full = secret_bytes(c.tag ^ 0xa11, 32);
+                let mut arr = [0u8; 32];
+                arr.copy_from_slice(&full);
+                residue_check::<hooks::Seed<H>>("Seed::from([u8; 32])", &|| Some(hooks::Seed::<H>::from(arr)), &[full.clone()])
+            }
             0 => residue_check::<hooks::Seed<H>>("Seed", &|| Some(hooks::make_seed::<H>(&seed)), &[seed.clone()]),
             1 => residue_check::<hooks::SeedAndLmsTreeIdentifier<H>>("SeedAndLmsTreeIdentifier", &|| Some(hooks::make_seed_and_lms_tree_identifier::<H>(&seed, &id)), &[seed.clone()]),
             2 => {
@@ -149,7 +156,7 @@ pub fn check_residue(c: &ResidueCase) -> Verdict {
             }
         }
     });
-    let tname = ["Seed", "SeedAndLmsTreeIdentifier", "ReferenceImplPrivateKey", "LmsPrivateKey", "LmotsPrivateKey", "LmotsPrivateKey-derived"][c.ty as usize % 6];
+    let tname = ["Seed", "SeedAndLmsTreeIdentifier", "ReferenceImplPrivateKey", "LmsPrivateKey", "LmotsPrivateKey", "LmotsPrivateKey-derived", "Seed-from-array"][c.ty as usize % 7];
     match r {
         Ok(true) => pass(format!("{}|{}", tname, c.hash.name()), true),
         Ok(false) => pass(format!("vacuous|{}|{}", tname, c.hash.name()), false),
@@ -204,7 +211,7 @@ pub fn run(ctx: &Ctx) {
     ctx.random(
         "memory_residue",
         &|| {
-            (gen::hash_id(), 0u8..6, any::<u64>(), 0u8..4, any::<u16>(), 0u8..8)
+            (gen::hash_id(), 0u8..7, any::<u64>(), 0u8..4, any::<u16>(), 0u8..8)
                 .prop_map(|(hash, ty, tag, w, chains, levels)| ResidueCase { hash, ty, tag, w, chains, levels })
                 .boxed()
         },
@@ -215,7 +222,7 @@ pub fn run(ctx: &Ctx) {
     // every (type, hash) pair at least once, with the largest objects (W1)
     let mut grid: Vec<ResidueCase> = Vec::new();
     for h in ALL_HASHES {
-        for ty in 0..6u8 {
+        for ty in 0..7u8 {
             for w in 0..4u8 {
                 grid.push(ResidueCase { hash: h, ty, tag: 42 + w as u64, w, chains: 0xffff, levels: 7 });
             }
@@ -223,7 +230,7 @@ pub fn run(ctx: &Ctx) {
     }
     ctx.enumerate("type_hash_grid", grid.len() as u64, true, |i| grid[i as usize].clone(), check_residue);
     for h in ALL_HASHES {
-        for t in ["Seed", "SeedAndLmsTreeIdentifier", "ReferenceImplPrivateKey", "LmsPrivateKey", "LmotsPrivateKey", "LmotsPrivateKey-derived"] {
+        for t in ["Seed", "SeedAndLmsTreeIdentifier", "ReferenceImplPrivateKey", "LmsPrivateKey", "LmotsPrivateKey", "LmotsPrivateKey-derived", "Seed-from-array"] {
             ctx.require_class("type_hash_grid", &format!("{}|{}", t, h.name()));
         }
     }
